@@ -82,7 +82,8 @@ def handleMemo (fn file cap m f h : Str) : Str :=
       | some e => e.2
       | none => 999999
     let hist := (splitOnChar ',' h).map (fun s => assignOf slots (parseCall s))
-    let out := (runMemo fv (keyOf c.key) cap [] hist).1
+    -- value ids ≥ 1000000 stand for `Err(_)` results, which are not stored
+    let out := (runMemo fv (keyOf c.key) (fun v => decide (v < 1000000)) cap [] hist).1
     joinWith [','] (out.map natToStr)
   | _, _ => "no-such-cache".toList
 
